@@ -84,6 +84,47 @@ type editVariant struct {
 	proposerX   bool // X is the proposer of the block's slot (the honest block itself is re-used)
 	edit        func(v common.Validator, cur common.Epoch) error
 	plan        func(x common.ValidatorIndex, cur common.Epoch) chain.BlockPlan
+	// editState (instead of edit): an edit of the state that is not about one validator; mutate: applied to the
+	// honest block (re-used as is when nil) after the edit
+	editState func(st *chain.StateCtx, deposits *chain.DepositTree, env *common.BeaconBlockEnvelope) error
+	mutate    func(st *chain.StateCtx, env *common.BeaconBlockEnvelope) (*common.BeaconBlockEnvelope, error)
+}
+
+// eth1_data.deposit_count one below eth1_deposit_index: reachable when an eth1 vote majority adopts data with a
+// smaller count; the specification's uint64 subtraction underflows, every block on such a state is invalid
+func editCountBelowIndex(st *chain.StateCtx, deposits *chain.DepositTree, env *common.BeaconBlockEnvelope) error {
+	cur, idx := st.Eth1()
+	if idx == 0 {
+		return fmt.Errorf("no deposits yet")
+	}
+	// consistent eth1 data of an earlier deposit-contract state: root over exactly idx-1 leaves
+	ed := deposits.Eth1Data(uint64(idx) - 1)
+	ed.BlockHash = cur.BlockHash
+	return st.State.SetEth1Data(ed)
+}
+
+// the same count, but the deposit ROOT still commits to all deposits (inconsistent eth1 data, which only a
+// dishonest voting majority can adopt): proofs for the indices beyond deposit_count verify.  Only applied to
+// blocks that carry exactly MAX_DEPOSITS deposits - see known_findings.d/beacon.json (deposit count underflow).
+func editCountBelowIndexRootCommitsMore(st *chain.StateCtx, deposits *chain.DepositTree, env *common.BeaconBlockEnvelope) error {
+	ed, idx := st.Eth1()
+	if idx == 0 || uint64(len(*chain.OpsOf(env.Body).Deposits)) != uint64(st.Spec.MAX_DEPOSITS) {
+		return fmt.Errorf("not applicable")
+	}
+	ed.DepositCount = idx - 1
+	return st.State.SetEth1Data(ed)
+}
+
+// appendDeposit adds one (well-formed, unprovable) deposit to a copy of the block and re-signs it
+func appendDeposit(st *chain.StateCtx, env *common.BeaconBlockEnvelope) (*common.BeaconBlockEnvelope, error) {
+	out, err := chain.CloneEnvelope(st.Spec, env)
+	if err != nil {
+		return nil, err
+	}
+	ops := chain.OpsOf(out.Body)
+	d := chain.MakeDepositData(st.Spec, st.Keys, chain.DepositSpec{Key: 90})
+	*ops.Deposits = append(*ops.Deposits, common.Deposit{Data: d})
+	return out, nil
 }
 
 func setEpochs(v common.Validator, elig, act, exit, wd *common.Epoch) error {
@@ -138,19 +179,22 @@ var (
 )
 
 var editVariants = []editVariant{
-	{"pslash-withdrawable-now", "slashable_boundary", 2, false, editWdNow, planPSlash},
-	{"pslash-withdrawable-next-control", "slashable_boundary", 1, false, editWdNext, planPSlash},
-	{"pslash-activation-next", "slashable_boundary", 0, false, editActNext, planPSlash},
-	{"pslash-activation-now-control", "slashable_boundary", 1, false, editActNow, planPSlash},
-	{"aslash-withdrawable-now", "slashable_boundary", 2, false, editWdNow, planASlash},
-	{"aslash-withdrawable-next-control", "slashable_boundary", 1, false, editWdNext, planASlash},
-	{"aslash-activation-next", "slashable_boundary", 0, false, editActNext, planASlash},
-	{"aslash-activation-now-control", "slashable_boundary", 1, false, editActNow, planASlash},
-	{"exit-of-pending-validator", "exit_status", 0, false, editPending, planExit},
-	{"exit-of-future-activation", "exit_status", 0, false, editActNext, planExit},
-	{"exit-of-exited-validator", "exit_status", 1, false, editExited, planExit},
-	{"exit-already-initiated", "exit_status", 0, false, editExiting, planExit},
-	{"header-proposer-slashed", "header", 0, true, editSlashedP, nil},
+	{"pslash-withdrawable-now", "slashable_boundary", 2, false, editWdNow, planPSlash, nil, nil},
+	{"pslash-withdrawable-next-control", "slashable_boundary", 1, false, editWdNext, planPSlash, nil, nil},
+	{"pslash-activation-next", "slashable_boundary", 0, false, editActNext, planPSlash, nil, nil},
+	{"pslash-activation-now-control", "slashable_boundary", 1, false, editActNow, planPSlash, nil, nil},
+	{"aslash-withdrawable-now", "slashable_boundary", 2, false, editWdNow, planASlash, nil, nil},
+	{"aslash-withdrawable-next-control", "slashable_boundary", 1, false, editWdNext, planASlash, nil, nil},
+	{"aslash-activation-next", "slashable_boundary", 0, false, editActNext, planASlash, nil, nil},
+	{"aslash-activation-now-control", "slashable_boundary", 1, false, editActNow, planASlash, nil, nil},
+	{"exit-of-pending-validator", "exit_status", 0, false, editPending, planExit, nil, nil},
+	{"exit-of-future-activation", "exit_status", 0, false, editActNext, planExit, nil, nil},
+	{"exit-of-exited-validator", "exit_status", 1, false, editExited, planExit, nil, nil},
+	{"exit-already-initiated", "exit_status", 0, false, editExiting, planExit, nil, nil},
+	{"header-proposer-slashed", "header", 0, true, editSlashedP, nil, nil, nil},
+	{"deposit-count-below-index-no-deposits", "deposit_count_underflow", 0, true, nil, nil, editCountBelowIndex, nil},
+	{"deposit-count-below-index-one-deposit", "deposit_count_underflow", 0, true, nil, nil, editCountBelowIndex, appendDeposit},
+	{"deposit-count-below-index-root-commits-more", "deposit_count_underflow", 0, true, nil, nil, editCountBelowIndexRootCommitsMore, nil},
 }
 
 // runEdited builds and runs one editVariant for the block env (about to be applied on c's head).
@@ -183,9 +227,15 @@ func (o *observer) runEdited(c *chain.Chain, env *common.BeaconBlockEnvelope, ev
 	if err != nil {
 		return
 	}
-	v, err := vals.Validator(x)
-	if err != nil || ev.edit(v, cur) != nil {
-		return
+	if ev.editState != nil {
+		if ev.editState(base, c.Deposits, env) != nil {
+			return
+		}
+	} else {
+		v, err := vals.Validator(x)
+		if err != nil || ev.edit(v, cur) != nil {
+			return
+		}
 	}
 	epc, err := common.NewEpochsContext(spec, base.State.BeaconState)
 	if err != nil {
@@ -207,6 +257,30 @@ func (o *observer) runEdited(c *chain.Chain, env *common.BeaconBlockEnvelope, ev
 		if err != nil || venv == nil {
 			return
 		}
+	}
+	if ev.plan == nil {
+		// the honest block re-used on the edited state: give it the state root an implementation that (wrongly)
+		// processes it would arrive at - as for every other variant, only the edited condition may decide
+		pre2 := base.Copy(true)
+		if pre2.Advance(env.Slot) != nil {
+			return
+		}
+		venv, err = chain.CloneEnvelope(spec, venv)
+		if err != nil {
+			return
+		}
+		if ev.mutate != nil {
+			venv, err = ev.mutate(pre2, venv)
+			if err != nil || venv == nil {
+				return
+			}
+		}
+		venv.BodyRoot = venv.Body.HashTreeRoot(spec, tree.GetHashFn())
+		if root, err := chain.ComputeStateRoot(pre2, venv); err == nil {
+			venv.StateRoot = root
+		}
+		k := pre2.KeyOf(venv.ProposerIndex)
+		chain.Seal(pre2, venv, chain.SealOpts{Signer: &k})
 	}
 	o.rec.NegBlockOn(c.Ctx, spec, base.Epc, base.State, venv, ev.name, ev.class)
 	fork := chain.ForkAtEpoch(spec, cur)
